@@ -23,6 +23,7 @@ META = {
         "Not decided: that both ends succeed under every interleaving (behavioural)."
     ),
 }
+META["explanation"] += ' C20.R6: only offers are fanned out to binding devices.'
 
 BINDING_ERR = "ramses_rf.exceptions.BindingError"
 MOD = "ramses_rf.binding_fsm"
